@@ -346,11 +346,21 @@ def run_check(pid, rule_fn, argv):
         if rc != 1:
             print("ANALYSIS-BROKEN property=%s: %s" % (pid, e))
             rc = 2
-    except Exception:
+    except Exception as e:
         import traceback
         traceback.print_exc()
-        print("ANALYSIS-BROKEN property=%s: internal error in the checker (see traceback)" % pid)
+        # an internal error is an undecided run; violations established before it (each with its own witness) stand
+        established = [o for o in chk.obligations if o["status"] == REFUTED]
         rc = 2
+        if established:
+            try:
+                chk.notes.append("the analysis stopped early with an internal error: %s: %s" % (type(e).__name__, e))
+                rc = chk.finish()
+            except Exception:
+                rc = 2
+        if rc != 1:
+            print("ANALYSIS-BROKEN property=%s: internal error in the checker (see traceback)" % pid)
+            rc = 2
     try:
         sys.stdout.flush()
     except BrokenPipeError:
